@@ -236,6 +236,8 @@ struct Env {
     mirror_mismatch: u64,
     c_cases: usize,
     x_cases: usize,
+    q_cases: usize,
+    prepend_premise_broken: u64,
 }
 
 impl Env {
@@ -243,7 +245,7 @@ impl Env {
         let dict = FstDictionary::curated();
         let mut group = LintGroup::new_curated(dict.clone(), Dialect::American);
         group.set_all_rules_to(Some(true));
-        Env { dict, group, km: Default::default(), seen: Default::default(), collisions: 0, mirror_mismatch: 0, c_cases: 0, x_cases: 0 }
+        Env { dict, group, km: Default::default(), seen: Default::default(), collisions: 0, mirror_mismatch: 0, c_cases: 0, x_cases: 0, q_cases: 0, prepend_premise_broken: 0 }
     }
     fn document(&self, text: &str, lang: &str) -> Document {
         if lang == "markdown" {
@@ -292,8 +294,13 @@ impl Env {
         }
         match self.seen.get(&h) {
             Some(m0) if *m0 != m => {
+                // hash_injective_on is a premise of C14_only / C14_ignored_iff about DefaultHasher, monitored on the
+                // universe explored here: a collision is REPORTED (monitor + sample with both contexts), it is a fact
+                // about SipHash and not a failure of the property (C14_collision_hides says what follows from it)
                 self.collisions += 1;
-                rep.fail("hash_collision", format!("two different contexts hash to {h}"), inp.clone());
+                if self.collisions <= 5 {
+                    rep.sample(json!({"hash_collision": h.to_string(), "context_a": format!("{m0:?}"), "context_b": format!("{m:?}"), "input": inp}));
+                }
             }
             Some(_) => {}
             None => {
@@ -1393,6 +1400,219 @@ fn case_h(rep: &mut Report, env: &mut Env, r: &mut Rng, docs: &[Document], lints
 // driver
 // ------------------------------------------------------------------------------------------------
 
+// ------------------------------------------------------------------------------------------------
+// phase 3: the modelled Document::new_plain_english under LintContext::from_lint (stream Q), prepending a
+// paragraph with quotation marks (C14_plain_prepend), the serde_json text byte for byte (stream E)
+// ------------------------------------------------------------------------------------------------
+
+/// a name in base 256, in hex (Model/C14Edit.v: name_code / pcode_std)
+fn hexname(n: &str) -> String {
+    let mut v: u128 = 0;
+    for b in n.bytes() {
+        v = v.wrapping_mul(256).wrapping_add(b as u128);
+    }
+    format!("{v:x}")
+}
+
+/// the kind of a hashed fat token as the driver prints Ignore.tkind (ocaml/c14_main.ml: etag)
+fn qtag(k: &TokenKind) -> String {
+    match k {
+        TokenKind::Word(None) => "W".into(),
+        TokenKind::Word(Some(_)) => "W!".into(),
+        TokenKind::Punctuation(Punctuation::Quote(q)) => if q.twin_loc.is_none() { "Q".into() } else { "Q!".into() },
+        TokenKind::Punctuation(Punctuation::Currency(c)) => format!("P:{}", hexname(&format!("C:{c:?}"))),
+        TokenKind::Punctuation(p) => format!("P:{}", hexname(&format!("{p:?}"))),
+        TokenKind::Decade => "D".into(),
+        TokenKind::Number(n) => format!("N:{}:{}", n.radix, n.precision),
+        TokenKind::Space(n) => format!("S:{n}"),
+        TokenKind::Newline(n) => format!("L:{n}"),
+        TokenKind::EmailAddress => "E".into(),
+        TokenKind::Url => "U".into(),
+        TokenKind::Hostname => "H".into(),
+        TokenKind::Unlintable => "X".into(),
+        TokenKind::ParagraphBreak => "B".into(),
+        TokenKind::Regexish => "R".into(),
+    }
+}
+
+/// Q: ASCII text, span -> context token indices + (span, blanked kind, content) of every hashed token; the
+/// implementation's answer is accepted only when the rebuilt context hashes to the value IgnoredLints stored
+fn case_q(rep: &mut Report, env: &mut Env, text: &str, s: usize, e: usize) {
+    if !text.is_ascii() || text.len() > 400 {
+        return;
+    }
+    rep.eval();
+    let cs: Vec<char> = text.chars().collect();
+    let line = format!("Q {} | {} {}", cps(&cs), s, e);
+    let inp = json!({"kind": "plainq", "text": text, "s": s, "e": e});
+    let dict = env.dict.clone();
+    let Ok(doc) = guarded(|| Document::new_plain_english(text, &dict)) else {
+        rep.case(line.trim(), "P");
+        return;
+    };
+    let l = synthetic(Span { start: s, end: e });
+    match env.context(rep, &l, &doc, &inp) {
+        Some((idx, m, _)) => {
+            let i = idx.iter().map(|i| i.to_string()).collect::<Vec<_>>().join(" ");
+            let t = idx
+                .iter()
+                .zip(m.tokens.iter())
+                .map(|(i, f)| {
+                    let sp = doc.get_tokens()[*i].span;
+                    format!("{},{},{},{}", sp.start, sp.end, qtag(&f.kind), f.content.iter().map(|c| (*c as u32).to_string()).collect::<Vec<_>>().join("."))
+                })
+                .collect::<Vec<_>>()
+                .join(" ");
+            rep.case(line.trim(), format!("{i} ; {t}").trim());
+        }
+        None => rep.case(line.trim(), "MISMATCH"),
+    }
+    env.q_cases += 1;
+}
+
+/// P = a sentence with `quotes` quotation marks, a terminator and a blank line (ends_para of Proofs/C14Prepend.v)
+fn gen_para(r: &mut Rng) -> String {
+    let mut words: Vec<String> = (0..1 + r.below(5)).map(|_| r.s(gen::COMMON).to_string()).collect();
+    for _ in 0..r.below(4) {
+        let at = r.below(words.len() + 1);
+        words.insert(at, "\"".into());
+    }
+    let t = *r.pick(&[".", "!", "?"]);
+    format!("{}{t}\n\n", words.join(" "))
+}
+
+/// C14_plain_prepend / C14_plain_prepend_stable on the implementation: every lint of D (real rules + synthetic spans)
+/// that starts at least two characters into D and is ignored in D is ignored in P ++ D — provided the tokens before /
+/// under / after it are the same three lists (the property's premise, computed from the two real documents; the
+/// theorem says they are) — whatever P does to the pairing of D's quotation marks
+fn run_prepend(rep: &mut Report, env: &mut Env, p: &str, d: &str) {
+    rep.eval();
+    let inp = json!({"kind": "prepend", "p": p, "d": d});
+    let pd = format!("{p}{d}");
+    let n = p.chars().count();
+    let Some((doc_d, lints_d)) = env.lint(d, "plain") else { return };
+    let dict = env.dict.clone();
+    let Ok(doc_pd) = guarded(|| Document::new_plain_english(&pd, &dict)) else {
+        rep.fail("panic", "Document::new_plain_english panicked on P ++ D".into(), inp);
+        return;
+    };
+    let quotes_p = p.chars().filter(|c| *c == '"').count();
+    rep.count(&format!("prepend:quotes_in_P:{}", quotes_p.min(3)));
+    rep.count(if quotes_p % 2 == 1 && d.contains('"') { "prepend:pairs_of_D_change" } else { "prepend:pairs_of_D_kept" });
+    let mut lints: Vec<Lint> = lints_d;
+    let len_d = doc_d.get_source().len();
+    for t in doc_d.get_tokens().iter().take(12) {
+        lints.push(synthetic(t.span));
+    }
+    if len_d >= 4 {
+        lints.push(synthetic(Span { start: 2, end: 3 }));
+        lints.push(synthetic(Span { start: len_d - 1, end: len_d }));
+    }
+    let mut hidden = false;
+    for l in &lints {
+        case_q(rep, env, d, l.span.start, l.span.end);
+        case_q(rep, env, &pd, l.span.start + n, l.span.end + n);
+        if l.span.start < 2 {
+            rep.count("prepend:lint_within_two_chars_of_the_seam");
+            continue;
+        }
+        let mut l2 = l.clone();
+        l2.span = Span { start: l.span.start + n, end: l.span.end + n };
+        let r = guarded(|| {
+            let mut ig = IgnoredLints::new();
+            ig.ignore_lint(l, &doc_d);
+            (ig.is_ignored(l, &doc_d), ig.is_ignored(&l2, &doc_pd))
+        });
+        match r {
+            Err(m) => rep.fail("panic", format!("ignore_lint / is_ignored panicked: {m}"), inp.clone()),
+            Ok((here, there)) => {
+                if !here {
+                    rep.fail("hides", format!("lint {:?} of D not ignored right after ignoring it", l.span), inp.clone());
+                }
+                if neighbourhood(l, &doc_d) != neighbourhood(&l2, &doc_pd) {
+                    // the theorem (and C12) say this cannot happen for P of this shape
+                    env.prepend_premise_broken += 1;
+                    rep.fail("prepend_model", format!("lint {:?}: the tokens within two characters changed although P ends in a paragraph break and the lint starts {} characters into D", l.span, l.span.start), inp.clone());
+                } else if !there {
+                    rep.fail("stable_prepend_requoted", format!("lint {:?} `{}` ignored in D is reported again after the paragraph was put in front ({} quotation marks in P); its neighbourhood is untouched", l.span, text_of(&doc_d, l.span), quotes_p), inp.clone());
+                } else {
+                    hidden = true;
+                }
+            }
+        }
+    }
+    if hidden {
+        rep.nontrivial(&(p.to_string(), d.to_string()));
+    }
+}
+
+/// E: the text serde_json::to_string writes for a list, byte for byte (the order of the numbers is read back from that
+/// text: the model does not know the set's iteration order, everything else — key, punctuation, no whitespace, decimal
+/// digits of u64 — is the model's render_set)
+fn case_e(rep: &mut Report, hashes: &[u64]) {
+    rep.eval();
+    let inp = json!({"kind": "export", "hashes": hashes.iter().map(|h| h.to_string()).collect::<Vec<_>>()});
+    let text = format!("{{\"context_hashes\":[{}]}}", hashes.iter().map(|h| h.to_string()).collect::<Vec<_>>().join(","));
+    let r = guarded(|| serde_json::from_str::<IgnoredLints>(&text).map(|ig| serde_json::to_string(&ig).unwrap()));
+    match r {
+        Ok(Ok(out)) => {
+            let order: Vec<u64> = serde_json::from_str::<Value>(&out).ok().and_then(|v| v["context_hashes"].as_array().map(|a| a.iter().filter_map(|x| x.as_u64()).collect())).unwrap_or_default();
+            let line = format!("E {}", order.iter().map(|h| format!("{h:b}")).collect::<Vec<_>>().join(" "));
+            rep.case(line.trim(), &out);
+            let mut want: Vec<u64> = hashes.to_vec();
+            want.sort();
+            want.dedup();
+            let mut got = order.clone();
+            got.sort();
+            if got != want || order.len() != want.len() {
+                rep.fail("roundtrip", format!("importing {text} and exporting again gives {out}: not the same set"), inp);
+            }
+            rep.count(&format!("export:len:{}", bucket(want.len())));
+            if hashes.len() != want.len() {
+                rep.count("export:with_duplicates");
+            }
+            if want.iter().any(|h| *h == u64::MAX || *h == 0) {
+                rep.count("export:with_extremes");
+            }
+        }
+        Ok(Err(e)) => rep.fail("roundtrip", format!("a canonical list text was rejected: {e}"), inp),
+        Err(m) => rep.fail("panic", format!("import/export panicked: {m}"), inp),
+    }
+}
+
+fn gen_hashes(r: &mut Rng) -> Vec<u64> {
+    let n = match r.below(6) { 0 => 0, 1 => 1, 2 => 2, _ => 1 + r.below(12) };
+    let mut v: Vec<u64> = (0..n)
+        .map(|_| match r.below(9) {
+            0 => 0,
+            1 => u64::MAX,
+            2 => u64::MAX - r.below(3) as u64,
+            3 => 10u64.pow(r.below(20) as u32),
+            4 => 10u64.pow(1 + r.below(19) as u32) - 1,
+            5 => 1u64 << r.below(64),
+            6 => r.below(100) as u64,
+            _ => r.next(),
+        })
+        .collect();
+    if !v.is_empty() && r.chance(1, 3) {
+        let x = v[r.below(v.len())];
+        v.push(x);
+    }
+    v
+}
+
+/// what '\n' is for Rust's char methods and for the lexer: the premises of C14_plain_prepend on `u`
+fn monitor_newline(rep: &mut Report, env: &Env) {
+    let c = '\n';
+    let tokens = Document::new_plain_english("\n", &env.dict);
+    let word = tokens.get_tokens().iter().any(|t| matches!(t.kind, TokenKind::Word(_)));
+    let bad = (!c.is_whitespace()) as u64 + c.is_numeric() as u64 + c.is_alphabetic() as u64 + word as u64;
+    rep.monitor("newline: is_whitespace, not numeric, not alphabetic, not lexed as a word (premises of C14_plain_prepend): violations", bad);
+    if bad > 0 {
+        rep.fail("unicode_newline", "'\\n' is not what C14_plain_prepend assumes".into(), json!({"kind": "none"}));
+    }
+}
+
 fn replay_input(rep: &mut Report, env: &mut Env, v: &Value) {
     match v["kind"].as_str().unwrap_or("scenario") {
         "wasm" => {
@@ -1407,6 +1627,12 @@ fn replay_input(rep: &mut Report, env: &mut Env, v: &Value) {
         }
         "sweep" => sweep_spans(rep, env, v["text"].as_str().unwrap_or(""), v["max_len"].as_u64().unwrap_or(6) as usize),
         "json" => case_j(rep, v["text"].as_str().unwrap_or(""), "replay"),
+        "plainq" => case_q(rep, env, v["text"].as_str().unwrap_or(""), v["s"].as_u64().unwrap_or(0) as usize, v["e"].as_u64().unwrap_or(0) as usize),
+        "prepend" => run_prepend(rep, env, v["p"].as_str().unwrap_or(""), v["d"].as_str().unwrap_or("")),
+        "export" => {
+            let hs: Vec<u64> = v["hashes"].as_array().map(|a| a.iter().filter_map(|x| x.as_str().and_then(|s| s.parse().ok()).or(x.as_u64())).collect()).unwrap_or_default();
+            case_e(rep, &hs)
+        }
         "fields" => {
             let text = v["text"].as_str().unwrap_or("");
             if let Some((doc, lints)) = env.lint(text, "plain") {
@@ -1467,6 +1693,34 @@ fn main() {
             let inp = json!({"kind": "fields", "text": text, "lint": li});
             field_variants(&mut rep, &mut env, &l, &doc, &inp);
         }
+        // phase 3: a paragraph with quotation marks put in front of a plain ASCII text
+        for _ in 0..a.scale(120, 2500) {
+            let p = gen_para(&mut r);
+            let d: String = gen_text(&mut r).chars().filter(|c| c.is_ascii()).take(160).collect();
+            let mut d = d.trim_start_matches('\n').to_string();
+            if d.is_empty() {
+                continue;
+            }
+            if !d.contains('"') && r.chance(2, 3) {
+                // quotation marks of D next to a lint: their partners change when P holds an odd number of marks
+                d = format!("He said \"{}\" loudly, \"{}\". {d}", r.pick(gen::TRIGGERS), r.pick(gen::MISSPELT));
+            }
+            run_prepend(&mut rep, &mut env, &p, &d);
+        }
+        // phase 3: every span over small ASCII documents through the MODELLED parser
+        for t in SWEEP_TEXTS.iter().filter(|t| t.is_ascii()) {
+            let n = t.chars().count();
+            for s0 in 0..=n + 1 {
+                for e0 in s0..=(s0 + a.scale(3, 8)).min(n + 2) {
+                    case_q(&mut rep, &mut env, t, s0, e0);
+                }
+            }
+        }
+        // phase 3: the exported text byte for byte
+        for _ in 0..a.scale(400, 8000) {
+            let hs = gen_hashes(&mut r);
+            case_e(&mut rep, &hs);
+        }
         // JSON import
         for _ in 0..a.scale(1500, 40000) {
             let (t, origin) = gen_json(&mut r);
@@ -1487,6 +1741,8 @@ fn main() {
             case_h(&mut rep, &mut env, &mut r, &docs, &lints);
         }
     }
+    monitor_newline(&mut rep, &env);
+    rep.monitor("plain_prepend: neighbourhood changed although the premises hold", env.prepend_premise_broken);
     rep.monitor("hash_injective_on: contexts seen", env.seen.len() as u64);
     rep.monitor("hash_injective_on: collisions", env.collisions);
     rep.monitor("context_shape: stored hash != hash of the modelled context", env.mirror_mismatch);
@@ -1497,5 +1753,6 @@ fn main() {
     }
     rep.extra.insert("c_cases".into(), json!(env.c_cases));
     rep.extra.insert("x_cases".into(), json!(env.x_cases));
+    rep.extra.insert("q_cases".into(), json!(env.q_cases));
     rep.finish();
 }
